@@ -1619,7 +1619,22 @@ def visitorder(F, R):
 
 @rule('serstates')
 def serstates(F, R):
-    """C16.fields (back / back11): serialize() applies serialize_state to every element of the substate list."""
+    """C16.fields (back / back11): serialize() applies serialize_state to every element of the substate list; the wrappers the back-end
+    derives from user pseudo states (exit_pt, entry_pt, direct) do not hide the user class's own serialize()."""
+    for r_ in F.records:
+        if r_['n'] in ('exit_pt', 'entry_pt', 'direct') and r_['loc'].startswith('boost/msm/back') and r_.get('a'):
+            be_ = 'back11' if '/back11/' in r_['loc'] else 'back' if '/back/' in r_['loc'] else None
+            if be_ is None: continue
+            R.anchor('pseudo-wrapper:' + be_)
+            hides = 'serialize' in r_['methods']
+            proof = False
+            if hides:
+                for g in F.funcs:
+                    if g.n == 'serialize' and g.cls == r_['n'] and g.blocks and any(n.get('n') in ('base_object', 'serialize') for i, n in g.calls()): proof = True
+            ok = not hides or proof
+            R.ob('C16.fields', ok, {'wrapper': Facts.short(F.strs[r_['t']], 80), 'declares_serialize': hides})
+            if not ok:
+                R.find('C16.fields', (r_['loc'].split(':')[0], r_['q']), 'hides-serialize', '%s declares its own serialize() that does not archive its base: the serialize() of the user\'s pseudo state (do_serialize) is hidden and its data is neither saved nor loaded' % r_['n'], where=r_['loc'], instance=Facts.short(F.strs[r_['t']], 120))
     for f in F.funcs:
         be = backend_of(f)
         if be not in ('back', 'back11') or not f.blocks: continue
@@ -1822,3 +1837,29 @@ def visitmode(F, R):
             R.ob('C02.visit-mode', ok, {'func': f.q, 'runs': runs, 'mode': mode})
             if not ok:
                 R.find('C02.visit-mode', f, runs, 'the %s behaviours are applied with visit mode %d (required: active states, non-recursive = 1): states of a nested submachine, which runs its own %s, would be %s twice' % (runs, mode, 'entries' if runs == 'entry' else 'exits', 'entered' if runs == 'entry' else 'exited'), where=f.at(i))
+
+@rule('rowwrap')
+def rowwrap(F, R):
+    """C14.wrap: the generated wrappers of the functor front-end hand the behaviour exactly what the back-end gave them:
+    Row<...>::guard_call / action_call(fsm, evt, src, tgt, all_states) invoke Guard()/Action() once with (evt, fsm, src, tgt) - each
+    parameter in its place (a guard that reads the TARGET state must see the target, not the source twice)."""
+    for f in F.funcs:
+        if not f.blocks or f.n not in ('guard_call', 'action_call') or f.file not in ('boost/msm/front/functor_row.hpp', 'boost/msm/front/internal_row.hpp'): continue
+        pn = [p['n'] for p in f.d.get('params', [])]
+        if len(pn) < 4: continue
+        inv = [(i, n) for i, n in f.calls() if n.get('op') == '()' and len(n.get('args', [])) >= 3]
+        if not inv: continue
+        R.seen(f); R.anchor('row-wrapper:%s:%s' % (f.file.split('/')[-1], f.n))
+        ok = len(inv) == 1
+        got = None
+        if ok:
+            got = []
+            for a in inv[0][1]['args']:
+                x = f.nodes[a]
+                while x and x['k'] in ('icast', 'cast', 'paren'): x = f.nodes[x['e']]
+                got.append(x['n'] if x and x['k'] == 'ref' and x.get('dk') == 'param' else None)
+            want = [pn[1], pn[0], pn[2], pn[3]][:len(got)]
+            ok = got == want
+        R.ob('C14.wrap', ok, {'func': f.q, 'passes': got})
+        if not ok:
+            R.find('C14.wrap', f, 'args', '%s::%s must invoke the behaviour once with (event, fsm, source, target) = (%s); found %s' % (f.cls, f.n, ', '.join([pn[1], pn[0], pn[2], pn[3]]), got))
